@@ -10,6 +10,18 @@ import Buidl.Proofs.AddressDispatch
 namespace Buidl.Props.C09
 open Buidl Buidl.Base58 Buidl.Bech32 Buidl.Address
 
+/-! ## the extracted tables are those of the specifications -/
+
+/-- BIP173 generator and character set, the BIP173 / BIP350 checksum constants on both the
+    creating and the verifying side, Bitcoin's Base58 alphabet, the address / WIF version bytes -/
+theorem spec_constants :
+    Gen.bech32Gen = [0x3b6a57b2, 0x26508e6d, 0x1ea119fa, 0x3d4233dd, 0x2a1462b3] ∧
+    Gen.bech32Alphabet = "qpzry9x8gf2tvdw0s3jn54khce6mua7l" ∧
+    Gen.b32VerifyConst = 1 ∧ Gen.b32ChkXor = 1 ∧ Gen.b32mVerifyConst = 0x2bc830a3 ∧ Gen.b32mChkXor = 0x2bc830a3 ∧
+    Gen.base58Alphabet = "123456789ABCDEFGHJKLMNPQRSTUVWXYZabcdefghijkmnopqrstuvwxyz" ∧
+    Gen.p2pkhVersionMain = 0x00 ∧ Gen.p2pkhVersionOther = 0x6f ∧ Gen.p2shVersionMain = 0x05 ∧ Gen.p2shVersionOther = 0xc4 ∧
+    Gen.wifVersionMain = 0x80 ∧ Gen.wifVersionOther = 0xef := by decide
+
 /-! ## Base58 -/
 
 /-- the encoder is defined exactly on non-empty byte strings (`int("", 16)` raises) -/
@@ -221,6 +233,17 @@ theorem bech32_double_substitution (net : Str) (pre mid post : Str) (x y x' y' :
 -- UNPROVED (ext): two substitutions one of which changes the version character between `q` and
 -- another character (the checksum constant switches between 1 and 0x2bc830a3).  Needs the
 -- 2791-entry syndrome table of Appendix A; correspondence-only (sampled double substitutions).
+
+/-- the BIP173 test address is accepted, so the hypothesis of the substitution theorems
+    (a valid address of the shape `hrp ‖ "1" ‖ data`) is satisfiable -/
+example : hrpOf mainnet ++ '1' :: ("qw508d6qejxtdg4y5r3zarvary0c5xw7kv8f3t".toList ++ '4' :: []) =
+      "bc1qw508d6qejxtdg4y5r3zarvary0c5xw7kv8f3t4".toList ∧
+    (decodeBech32 "bc1qw508d6qejxtdg4y5r3zarvary0c5xw7kv8f3t4".toList).map (fun r => (r.1, r.2.1, r.2.2.length)) =
+      some (mainnet, 0, 20) ∧
+    decodeBech32 "bc1qw508d6qejxtdg4y5r3zarvary0c5xw7kv8f3t5".toList = none := by decide +kernel
+
+/-- a hash function as the theorems about Base58Check assume it (32 bytes out) exists -/
+example : ∃ h : Bytes → Bytes, ∀ b, (h b).length = 32 := ⟨fun _ => List.replicate 32 0, fun _ => by simp⟩
 
 example : KnownNet mainnet ∧ KnownNet regtest ∧ hrpOf signet = ['t', 'b'] ∧ netBack signet = testnet :=
   ⟨Or.inl rfl, Or.inr (Or.inr (Or.inr rfl)), by decide, by decide⟩
